@@ -373,8 +373,16 @@ def check_keys(ctx, it):
                detail="Cw4Contract::%s raw-queries namespace(s) %s of the group; the groups store it under %r"
                       % (fn.split("::")[-1], seen_ns, cw4c[want]), sample={"namespace": seen_ns})
     # member_key length prefix
-    mk = "cw4::query::member_key"
-    if ctx.ob("R09.5", "anchor:member_key", mk in ctx.facts.bodies, trivial=True, detail="cw4 member_key not found"):
+    # the raw-key builder, wherever it lives in the cw4 package: by name, else by role (a function returning bytes that
+    # mentions MEMBERS_KEY)
+    cands = sorted(b.path for b in ctx.facts.bodies.values() if b.crate == "cw4" and b.kind == "fn" and b.path.endswith("::member_key"))
+    if not cands:
+        import json as _json
+        for d in ctx.facts.crates["cw4"]["bodies"]:
+            if d["kind"] == "fn" and d["locals"] and d["locals"][0]["ty"] == "std::vec::Vec<u8>" and "MEMBERS_KEY" in _json.dumps(d["blocks"]):
+                cands.append(d["path"])
+    mk = cands[0] if cands else None
+    if ctx.ob("R09.5", "anchor:member_key", mk is not None, trivial=True, detail="cw4 raw member-key builder not found"):
         ps = ctx.summarise(mk)
         good = False
         why = "member_key does not build [0, len(MEMBERS_KEY)] ++ MEMBERS_KEY ++ address"
